@@ -283,6 +283,183 @@ theorem registerAll_get (rs : List Ref) (n : String) :
         simp [hm, h, List.filter_append, this])
     simpa using this
 
+/-! ### `keys()` and `in` (what `PluginGroup.keys` / `__contains__` read from the table) -/
+
+theorem Table.keys_set_perm (t : Table) (n : String) (x : Ref) (f : List Ref → List Ref)
+    (hf : ∀ l, (f l).Perm l) :
+    (t.set n (f (t.get n ++ [x]))).keys.Perm (x :: t.keys) := by
+  induction t with
+  | nil =>
+    simp only [Table.set, Table.get, Table.keys, List.nil_append, List.append_nil]
+    exact hf [x]
+  | cons e es ih =>
+    obtain ⟨k, l'⟩ := e
+    by_cases hk : k = n
+    · subst hk
+      simp only [Table.set, Table.get, Table.keys, beq_self_eq_true, if_true]
+      refine ((hf _).append_right _).trans ?_
+      simp only [List.append_assoc]
+      exact (List.perm_middle (l₁ := l') (a := x) (l₂ := Table.keys es))
+    · simp only [Table.set, Table.get, Table.keys, beq_iff_eq, hk, if_false]
+      exact ((ih).append_left l').trans List.perm_middle
+
+/-- registering adds exactly the new reference to what `keys()` yields -/
+theorem register_keys_perm (t : Table) (r : Ref) : (register t r).keys.Perm (r :: t.keys) :=
+  Table.keys_set_perm t r.name r sortRefs sortRefs_perm
+
+theorem registerAll_keys_perm' (rs : List Ref) (t : Table) :
+    (rs.foldl register t).keys.Perm (rs ++ t.keys) := by
+  induction rs generalizing t with
+  | nil => simp
+  | cons r rs ih =>
+    simp only [List.foldl_cons, List.cons_append]
+    refine (ih (register t r)).trans ?_
+    exact ((register_keys_perm t r).append_left rs).trans List.perm_middle
+
+/-- `keys()` yields every registered reference exactly as often as it was registered -/
+theorem registerAll_keys_perm (rs : List Ref) : (rs.foldl register []).keys.Perm rs := by
+  simpa [Table.keys] using registerAll_keys_perm' rs []
+
+/-- well-formed table: names occur once, and the list of a name holds references of that name -/
+def Table.WF (t : Table) : Prop :=
+  (t.map Prod.fst).Nodup ∧ ∀ e ∈ t, ∀ r ∈ e.2, r.name = e.1
+
+theorem Table.keys_filter_of_not_mem (t : Table) (n : String)
+    (h : ∀ e ∈ t, ∀ r ∈ e.2, r.name = e.1) (hn : n ∉ t.map Prod.fst) :
+    t.keys.filter (fun r => r.name = n) = [] := by
+  induction t with
+  | nil => simp [Table.keys]
+  | cons e es ih =>
+    obtain ⟨k, l⟩ := e
+    simp only [List.map_cons, List.mem_cons, not_or] at hn
+    simp only [Table.keys, List.filter_append]
+    rw [ih (fun e he => h e (List.mem_cons_of_mem _ he)) hn.2, List.append_nil,
+      List.filter_eq_nil_iff]
+    intro r hr
+    have := h (k, l) (List.mem_cons_self) r hr
+    simp only at this
+    simp only [decide_eq_true_eq]
+    intro h'
+    exact hn.1 (h'.symm.trans this)
+
+theorem Table.keys_filter_name (t : Table) (h : t.WF) (n : String) :
+    t.keys.filter (fun r => r.name = n) = t.get n := by
+  induction t with
+  | nil => simp [Table.keys, Table.get]
+  | cons e es ih =>
+    obtain ⟨k, l⟩ := e
+    obtain ⟨hnd, hnm⟩ := h
+    simp only [List.map_cons, List.nodup_cons] at hnd
+    have hes : Table.WF es := ⟨hnd.2, fun e he => hnm e (List.mem_cons_of_mem _ he)⟩
+    have hl : ∀ r ∈ l, r.name = k := hnm (k, l) List.mem_cons_self
+    simp only [Table.keys, Table.get, List.filter_append, beq_iff_eq]
+    by_cases hk : k = n
+    · subst hk
+      rw [Table.keys_filter_of_not_mem es k hes.2 hnd.1, List.append_nil, if_pos rfl,
+        List.filter_eq_self]
+      intro r hr
+      simp [hl r hr]
+    · rw [if_neg hk, ih hes]
+      have : l.filter (fun r => decide (r.name = n)) = [] := by
+        rw [List.filter_eq_nil_iff]
+        intro r hr
+        simp only [decide_eq_true_eq]
+        intro h'
+        exact hk ((hl r hr).symm.trans h')
+      rw [this, List.nil_append]
+
+theorem Table.get_names (t : Table) (h : t.WF) (n : String) : ∀ r ∈ t.get n, r.name = n := by
+  intro r hr
+  rw [← Table.keys_filter_name t h n] at hr
+  simpa using (List.mem_filter.mp hr).2
+
+theorem Table.set_map_fst (t : Table) (n : String) (l : List Ref) :
+    (t.set n l).map Prod.fst = if n ∈ t.map Prod.fst then t.map Prod.fst else t.map Prod.fst ++ [n] := by
+  induction t with
+  | nil => simp [Table.set]
+  | cons e es ih =>
+    obtain ⟨k, l'⟩ := e
+    by_cases hk : k = n
+    · subst hk; simp [Table.set]
+    · have hk' : ¬ n = k := fun h => hk h.symm
+      simp only [Table.set, beq_iff_eq, hk, if_false, List.map_cons, ih, List.mem_cons, hk', false_or]
+      split_ifs <;> simp
+
+theorem Table.mem_set (t : Table) (n : String) (l : List Ref) (e : String × List Ref)
+    (he : e ∈ t.set n l) : e ∈ t ∨ e = (n, l) := by
+  induction t with
+  | nil => simpa [Table.set] using he
+  | cons e' es ih =>
+    obtain ⟨k, l'⟩ := e'
+    by_cases hk : k = n
+    · subst hk
+      simp only [Table.set, beq_self_eq_true, if_true, List.mem_cons] at he
+      rcases he with he | he
+      · exact Or.inr he
+      · exact Or.inl (List.mem_cons_of_mem _ he)
+    · simp only [Table.set, beq_iff_eq, hk, if_false, List.mem_cons] at he
+      rcases he with he | he
+      · exact Or.inl (he ▸ List.mem_cons_self)
+      · rcases ih he with h | h
+        · exact Or.inl (List.mem_cons_of_mem _ h)
+        · exact Or.inr h
+
+theorem register_WF (t : Table) (h : t.WF) (r : Ref) : (register t r).WF := by
+  refine ⟨?_, ?_⟩
+  · simp only [register, Table.set_map_fst]
+    split_ifs with hm
+    · exact h.1
+    · exact List.Nodup.append h.1 (List.nodup_singleton _) (by simpa using hm)
+  · intro e he x hx
+    rcases Table.mem_set _ _ _ _ he with he | he
+    · exact h.2 e he x hx
+    · subst he
+      have := (sortRefs_perm _).subset hx
+      simp only [List.mem_append, List.mem_singleton] at this
+      rcases this with h' | h'
+      · exact Table.get_names t h _ x h'
+      · exact h' ▸ rfl
+
+theorem registerAll_WF (rs : List Ref) : (rs.foldl register []).WF := by
+  suffices H : ∀ t : Table, t.WF → (rs.foldl register t).WF from H [] ⟨by simp, by simp⟩
+  induction rs with
+  | nil => intro t h; exact h
+  | cons r rs ih => intro t h; exact ih _ (register_WF t h r)
+
+theorem contains_none_iff (grp : String) (rs : List Ref) (n : String) :
+    contains grp (rs.foldl register []) n none = true ↔ ∃ r ∈ rs, r.name = n := by
+  have hp := sortRefs_perm (rs.filter (fun r => r.name = n))
+  simp only [contains, registerAll_get]
+  constructor
+  · intro h
+    cases hl : sortRefs (rs.filter (fun r => r.name = n)) with
+    | nil => simp [hl] at h
+    | cons x xs =>
+      have : x ∈ rs.filter (fun r => r.name = n) := hp.subset (hl ▸ List.mem_cons_self)
+      simp only [List.mem_filter, decide_eq_true_eq] at this
+      exact ⟨x, this⟩
+  · rintro ⟨r, hr, hn⟩
+    have : r ∈ sortRefs (rs.filter (fun r => r.name = n)) := hp.symm.subset (by simp [hr, hn])
+    cases hl : sortRefs (rs.filter (fun r => r.name = n)) with
+    | nil => simp [hl] at this
+    | cons x xs => rfl
+
+theorem contains_some_iff (grp : String) (rs : List Ref) (n : String) (v : Ver) :
+    contains grp (rs.foldl register []) n (some v) = true ↔ (⟨grp, n, v⟩ : Ref) ∈ rs := by
+  have hp := sortRefs_perm (rs.filter (fun r => r.name = n))
+  have key : (sortRefs (rs.filter (fun r => r.name = n))).any (fun r => eq ⟨grp, n, v⟩ r) = true ↔
+      (⟨grp, n, v⟩ : Ref) ∈ rs := by
+    simp only [List.any_eq_true, eq_iff]
+    constructor
+    · rintro ⟨r, hr, rfl⟩
+      exact (List.mem_filter.mp (hp.subset hr)).1
+    · intro h
+      exact ⟨_, hp.symm.subset (by simp [h]), rfl⟩
+  simp only [contains, registerAll_get]
+  cases hl : sortRefs (rs.filter (fun r => r.name = n)) with
+  | nil => rw [hl] at key; simpa using key
+  | cons x xs => rw [hl] at key; exact key
+
 end MetadorModel.Plugin
 
 namespace MetadorModel.Plugin
